@@ -499,6 +499,7 @@ class Session:
         self.step_hook = step_hook
         self.steps = 0
         self.t_since_b = {}     # actor idx -> consecutive T without B (probe)
+        self.n_answers = []     # (actor idx, answer of has_non_zero_cost()) in call order
 
     def bump(self, k, n=1):
         self.counters[k] = self.counters.get(k, 0) + n
@@ -586,6 +587,7 @@ class Session:
             self.log.add(self.steps, "V", tag, e.valid)
         elif op == "N":
             r = e.has_non_zero_cost()
+            self.n_answers.append((a.idx, bool(r)))
             self.log.add(self.steps, "N", tag, r)
         elif op == "E":
             if isinstance(e, CompoundEdit):
@@ -661,6 +663,21 @@ class Session:
         b = e.bounds()
         script = serialise(e, self.paths)
         return (b.lower_bound, b.upper_bound), script
+
+    def check_non_zero_answers(self):
+        """has_non_zero_cost() is a view of the final cost: whenever it was asked, its answer must be (final cost > 0)."""
+        for ai, ans in self.n_answers:
+            e = self.actors[ai].edit
+            if e.valid is False:
+                continue
+            exhaust(e)
+            b = e.bounds()
+            if not b.definitive():
+                continue
+            if ans != (b.lower_bound > 0):
+                raise Violation("non-zero-answer-wrong", type(e).__name__,
+                                f"has_non_zero_cost() answered {ans} at some point of this history, but the final cost "
+                                f"of {e!r:.200} is {b.lower_bound}")
 
     def check_resumed_listings(self):
         for ai, got in self.resume_records:
